@@ -53,6 +53,7 @@ type opInfo struct {
 	owner   int
 	dp      int // log prefix whose foreign operations the owner had applied when it emitted the op
 	li      int // index in the log (-1 until pushed)
+	step    int // machine step at which it was emitted
 	touches []string
 }
 
@@ -105,7 +106,7 @@ func (m *l0Machine) noteOps(r int, dp int) {
 	}
 	em := m.w.Reps[r].Emitted
 	for i := len(m.perRep[r]); i < len(em); i++ {
-		oi := &opInfo{op: em[i], owner: r, dp: dp, li: -1, touches: touches(em[i])}
+		oi := &opInfo{op: em[i], owner: r, dp: dp, li: -1, step: m.steps, touches: touches(em[i])}
 		m.ops = append(m.ops, oi)
 		m.perRep[r] = append(m.perRep[r], oi)
 		m.byID[opKey(em[i])] = oi
